@@ -96,7 +96,8 @@ configurations, interface tables, unit, address index and server reply — satis
 the spec: enabled candidate type and network type (empty list = all), never a site-local or
 IPv4-compatible address, link-local only behind the mDNS name, mDNS name iff gather mode, and for
 sockets the agent opens itself: accepted interface and address, port inside the range. -/
-theorem C18_sound (cfg : Config) (ifs : List Iface) (hq : cfg.quirks = []) (hwf : realAddrs cfg ifs = true) (u : GUnit)
+theorem C18_sound (cfg : Config) (ifs : List Iface) (hq : cfg.quirks = []) (hwf : realAddrs cfg ifs = true)
+    (hpin : pinnedExtOk cfg = true) (u : GUnit)
     (hu : u ∈ allUnits cfg ifs) (ci m : Nat)
     (hp : publishable cfg (unitCand cfg u ci m) = true) (hh : (unitCand cfg u ci m).hidden = false) :
     candViolation cfg ifs (unitCand cfg u ci m) = none := by
@@ -184,7 +185,14 @@ theorem C18_sound (cfg : Config) (ifs : List Iface) (hq : cfg.quirks = []) (hwf 
           split at hb
           · rename_i hf; simp only [hf, ↓reduceIte]; exact hb.1
           · rename_i hf; simp only [hf, Bool.false_eq_true, ↓reduceIte]; exact hb
-        -- the published address: a mapped external address, or the bound address itself
+        -- the published address: the bound address itself, an external address of a catch-all rule, or an
+        -- external address of a pinned rule
+        have hfam : bind.cls.is6 = net.is6 := by
+          split at hb
+          · exact hb.2
+          · subst hb; cases net.is6 <;> rfl
+        have hnetEq : NetType.ofTransport false net.is6 = net := by
+          cases net <;> simp_all [NetType.ofTransport, NetType.is6, NetType.isTCP]
         have hbind : (excludedClass bind.cls && bind.cls != AddrClass.u6 && bind.cls != AddrClass.l6) = false
             ∧ (bind.cls == AddrClass.nm) = false := by
           split at hb
@@ -194,19 +202,29 @@ theorem C18_sound (cfg : Config) (ifs : List Iface) (hq : cfg.quirks = []) (hwf 
             simp only [realAddrs, Bool.and_eq_true, List.all_eq_true] at hwf
             exact ⟨by simp [hex], by simpa using hwf.1 i hi bind ha⟩
           · subst hb; cases net.is6 <;> simp [unspec, excludedClass]
-        have haddr : (excludedClass (unitCand cfg ⟨.srflxMapped, net, bind, url, n⟩ ci m).addr.cls
-              && (unitCand cfg ⟨.srflxMapped, net, bind, url, n⟩ ci m).addr.cls != AddrClass.u6
-              && (unitCand cfg ⟨.srflxMapped, net, bind, url, n⟩ ci m).addr.cls != AddrClass.l6) = false
-            ∧ ((unitCand cfg ⟨.srflxMapped, net, bind, url, n⟩ ci m).addr.cls == AddrClass.nm) = false := by
-          simp only [unitCand]
-          rcases mappedAddr_cases cfg bind ci with h | h
-          · rw [h]; exact hbind
-          · rw [h]; simp [excludedClass]
-        obtain ⟨hex, hnm⟩ := haddr
-        have hk : (unitCand cfg ⟨.srflxMapped, net, bind, url, n⟩ ci m).addr.cls.isLinkLocal6 = false := by
-          simpa [publishable, unitCand] using hp
-        simp only [unitCand] at hex hnm hk
-        simp [candViolation, unitCand, hT, hne, hex, hnm, hk, ownPortFlag_ne_M, hbase, portOk_own]
+        have hpub := hp
+        simp only [publishable, unitCand, Bool.and_eq_true, Bool.or_eq_true, Bool.not_eq_true', bne_iff_ne, ne_eq,
+          reduceCtorEq, not_true_eq_false, decide_false, Bool.false_eq_true, false_or, beq_iff_eq] at hpub
+        -- the network type of the candidate (family of the mapped address) is enabled: the `netType` test
+        have hnet : netEnabled cfg (NetType.ofTransport false
+            ((((srflxMappedAddrs cfg bind).getD [])[ci]?).getD bind).cls.is6) = true :=
+          netEnabled_of_configured hpub.2
+        have hk := hpub.1.2
+        have haddr : ∀ a : Addr, a = (((srflxMappedAddrs cfg bind).getD [])[ci]?).getD bind →
+            (excludedClass a.cls && a.cls != AddrClass.u6 && a.cls != AddrClass.l6) = false
+              ∧ (a.cls == AddrClass.nm) = false := by
+          intro a ha
+          rcases mappedAddr_cases cfg bind ci with h | h | ⟨r, exts, hpe, hmem⟩
+          · rw [← ha] at h; subst h
+            exact hbind
+          · rw [← ha] at h
+            exact by simp [h.1, excludedClass]
+          · rw [← ha] at hmem
+            have := hpin
+            simp only [pinnedExtOk, hpe, List.all_eq_true, Bool.or_eq_true, beq_iff_eq] at this
+            rcases this a hmem with (hc | hc) | hc <;> simp [hc, excludedClass]
+        obtain ⟨hex, hnm⟩ := haddr _ rfl
+        simp [candViolation, unitCand, hT, hnet, hex, hnm, hk, ownPortFlag_ne_M, hbase, portOk_own]
     · simp at hu
   · -- relay
     split at hu
@@ -241,13 +259,14 @@ operation sequence on a fresh agent and every further operation: every candidate
 `GetLocalCandidates` or delivers to `OnCandidate` passes the spec's `candViolation` — i.e. every trace
 the model can produce passes the soundness part of the monitor that is also run on the implementation. -/
 theorem C18_sound_reachable (cfg : Config) (ifs : List Iface) (hq : cfg.quirks = []) (hwf : realAddrs cfg ifs = true)
+    (hpin : pinnedExtOk cfg = true)
     (s0 : MState) (h0 : newAgent cfg ifs = .ok s0) (ops : List Op) (op : Op) :
     ∀ c ∈ (observe (step (runOps s0 ops) op).1).cands ++ (observe (step (runOps s0 ops) op).1).evs,
       candViolation cfg ifs c.1 = none := by
   have hp : Prov cfg ifs (step (runOps s0 ops) op).1 := step_prov (runOps_prov ops (prov_init cfg ifs s0 h0)) op
   have sound : ∀ d, FromUnit cfg ifs d → d.hidden = false → candViolation cfg ifs d = none := by
     rintro d ⟨u, hu, ci, m, rfl, hpub⟩ hh
-    exact C18_sound cfg ifs hq hwf u hu ci m hpub hh
+    exact C18_sound cfg ifs hq hwf hpin u hu ci m hpub hh
   intro c hc
   simp only [observe, List.mem_append] at hc
   rcases hc with hc | hc
@@ -548,6 +567,29 @@ example : candViolation exCfg exIfs { ty := .host, net := .udp6, addr := ⟨.g6,
 /-- G1 in the model: with the quirk the unit exists, without it it does not -/
 example : ({ kind := .hostUdp, net := .udp6, bind := ⟨.g6, 1⟩ } : GUnit) ∈ allUnits { exCfg with quirks := [1] } exIfs
     ∧ ({ kind := .hostUdp, net := .udp6, bind := ⟨.g6, 1⟩ } : GUnit) ∉ allUnits exCfg exIfs := by decide
+/-- pinned srflx rules (external list of 1–3 addresses, mixed families, a location-tracked one anywhere)
+satisfy the class hypothesis; a site-local external does not (finding candidate C18-G7) -/
+example : pinnedExtOk { srflxPinned := some (true, [⟨.k6, 1⟩, ⟨.x4, 80⟩, ⟨.x6, 80⟩]) } = true := by decide
+example : pinnedExtOk { srflxPinned := some (true, [⟨.s6, 1⟩]) } = false := by decide
+
+/-- regression for the former excluded point (C18-G6, repaired): only udp4 enabled, pinned rule
+`0.0.0.0 → [2001:db8:ffff::50]`.  The candidate would be rejected by the spec … -/
+def g6Cfg : Config := { candTypes := [.srflx], netTypes := [.udp4], srflxPinned := some (true, [⟨.x6, 80⟩]) }
+def g6Ifs : List Iface := [{ name := 0, up := true, loopback := false, addrs := [⟨.g4, 1⟩, ⟨.g6, 1⟩] }]
+
+example : candViolation g6Cfg g6Ifs (unitCand g6Cfg { kind := .srflxMapped, net := .udp4, bind := unspec false } 0 0)
+    = some "network type not enabled: server reflexive candidate" := by decide
+/-- … and is not published: the `netType` test turns it away, `addCandidate` is never reached, … -/
+example : publishable g6Cfg (unitCand g6Cfg { kind := .srflxMapped, net := .udp4, bind := unspec false } 0 0) = false := by
+  decide
+/-- … the agent model publishes nothing and has closed the socket it opened for it (1 open, 1 close), … -/
+example : (match newAgent g6Cfg g6Ifs with
+    | .ok s => let s' := (step s .gather).1
+               (s'.cands.length, s'.evs.length, s'.opens, s'.closes, s'.liveRes.length, s'.cyc.gs)
+    | .error _ => (9, 9, 9, 9, 9, Cycle.GS.new)) = (0, 0, 1, 1, 0, Cycle.GS.complete) := by decide
+/-- … and that path of the program is balanced: listen, addresses, filter, NewCandidate ok, network type refused -/
+example : (srflxMappedProg 1).run [.ok, .ok, .ok, .ok, .fail] {} = some { slots := [.released], misuse := false } := by
+  decide
 example : IceProofs.GatherCyc.quiet {} [.gather, .start 0, .addCheck 0, .addHandoff 0, .complete 0, .restart, .gather] = true := by
   decide
 example : (Cycle.run false {} [.gather, .start 0, .complete 0, .gather, .restart, .gather]).2
